@@ -7,6 +7,7 @@ pub mod macros;
 pub mod stubs;
 pub mod vlock;
 pub mod vleaf;
+pub mod dialect_rt;
 pub mod util;
 
 mod c06_key;
@@ -20,3 +21,10 @@ mod c17_nonacq;
 mod probe;
 pub mod col;
 mod gen_col;
+
+// harnesses over the unwind-to-Result dialect; only built when u2r has generated the twins (T4)
+#[cfg(verif_dialect)]
+#[macro_use]
+pub mod dia_faults;
+#[cfg(verif_dialect)]
+mod gen_dia;
